@@ -220,8 +220,45 @@ func nontrivial(sc Scenario) bool {
 	return true
 }
 
+// runPair builds a second, different pipeline of the same arity from the same scenario and calls the two
+// alternately: state kept per composed function must not leak into another composed function.
+func runPair(sc Scenario) string {
+	if sc.Family != "trace" {
+		return ""
+	}
+	mk := func(prefix string) (func(string) string, func(string) string) {
+		fs := make([]func(string) string, sc.N)
+		for i := range fs {
+			tag := "<" + prefix + strconv.Itoa(i) + ">"
+			fs[i] = func(s string) string { return s + tag }
+		}
+		ref := func(a string) string {
+			for i := 0; i < sc.N; i++ {
+				a += "<" + prefix + strconv.Itoa(i) + ">"
+			}
+			return a
+		}
+		return compose(fs), ref
+	}
+	h1, r1 := mk("x")
+	h2, r2 := mk("y")
+	for k, a := range sc.Args {
+		arg := strconv.Itoa(a)
+		if g, w := h1(arg), r1(arg); g != w {
+			return fmt.Sprintf("two Pipe%d compositions used alternately, call %d of the first: got %q want %q", sc.N, k, g, w)
+		}
+		if g, w := h2(arg), r2(arg); g != w {
+			return fmt.Sprintf("two Pipe%d compositions used alternately, call %d of the second: got %q want %q", sc.N, k, g, w)
+		}
+	}
+	return ""
+}
+
 func check(t interface{ Fatalf(string, ...any) }, sc Scenario) {
 	msg := Run(sc)
+	if msg == "" {
+		msg = runPair(sc)
+	}
 	vk.Record(sc, nontrivial(sc), "N="+strconv.Itoa(sc.N), "family="+sc.Family, "calls="+strconv.Itoa(len(sc.Args)))
 	if msg != "" {
 		vk.Fail("C20", "TestC20", "", sc, msg)
